@@ -583,6 +583,7 @@ func intKindID(b *types.Basic) int { return int(b.Kind()) }
 
 // box wraps a concrete value into the Any datatype.
 func (x *Exec) box(v Val, t types.Type) Term {
+	t = canonType(t)
 	if _, ok := t.Underlying().(*types.Interface); ok {
 		return x.termOf(v)
 	}
@@ -620,6 +621,7 @@ func (x *Exec) box(v Val, t types.Type) Term {
 
 // unboxCond gives (ok condition, payload) for x.(T).
 func (x *Exec) unbox(a Term, t types.Type, static types.Type) (Term, Term) {
+	t = canonType(t)
 	switch u := t.Underlying().(type) {
 	case *types.Interface:
 		if u.NumMethods() == 0 {
